@@ -48,6 +48,7 @@ type CallSpec struct { // "at call <callee>#k: requires e" / "hint e"
 	ReqSrc  []string
 	Hints   []*E
 	Matched bool
+	Bind    map[string]string // ghost name -> callee result name
 }
 
 type Contract struct {
@@ -142,7 +143,7 @@ func readDirectives(path string, prefixed bool) ([]string, []int, error) {
 var reSpecFunc = regexp.MustCompile(`^(?:pure|opaque)\s+func\s+(\w+)\s*\(([^)]*)\)\s*([^=]*?)\s*(?:=\s*(.*))?$`)
 var reFuncHdr = regexp.MustCompile(`^(func|extern)\s+(\S+?)(?:\s*\(([^)]*)\)\s*(?:\(([^)]*)\))?)?\s*$`)
 var reLoop = regexp.MustCompile(`^loop\s+(\d+)\s*:\s*(invariant|decreases|hint)\s+(.*)$`)
-var reAtCall = regexp.MustCompile(`^at\s+call\s+(\S+?)#(\d+)\s*:\s*(requires|hint)\s+(.*)$`)
+var reAtCall = regexp.MustCompile(`^at\s+call\s+(\S+?)#(\d+)\s*:\s*(requires|hint|bind)\s+(.*)$`)
 
 func parseParams(s string) []QVar {
 	// "d []byte, p int" or "a, b int"; names only allowed ("s, sep")
@@ -478,6 +479,19 @@ func (ss *SpecSet) loadSpecFile(path string, prefixed bool, pkgDir string) error
 				if cs == nil {
 					cs = &CallSpec{Callee: m[1], K: k}
 					cur.Calls = append(cur.Calls, cs)
+				}
+				if m[3] == "bind" {
+					if cs.Bind == nil {
+						cs.Bind = map[string]string{}
+					}
+					for _, kv := range strings.Split(m[4], ",") {
+						p := strings.SplitN(kv, "=", 2)
+						if len(p) != 2 {
+							return fail(i, "bind ghost = result, ...")
+						}
+						cs.Bind[strings.TrimSpace(p[0])] = strings.TrimSpace(p[1])
+					}
+					continue
 				}
 				e, err := mustExpr(i, m[4])
 				if err != nil {
